@@ -319,7 +319,13 @@ Definition open_link (c : cluster) (from : str) (nl : newlink * list str) : clus
   | _, _ => c
   end.
 
-Definition poll_sup (c : cluster) (name : str) : cluster :=
+(* all nodes of the harness live in one process and read one clock: before a node acts, every
+   node's clock is moved to the latest one *)
+Definition sync_clocks (c : cluster) : cluster :=
+  let mx := fold_left (fun a kv => N.max a (n_clock (cn_node (snd kv)))) (c_nodes c) 0%N in
+  mkCl (map (fun kv => (fst kv, cn_set_node (snd kv) (n_set_clock (cn_node (snd kv)) mx))) (c_nodes c)) (c_links c) (c_cross c).
+
+Definition poll_sup_raw (c : cluster) (name : str) : cluster :=
   match get_cn c name with
   | None => c
   | Some x =>
@@ -332,11 +338,15 @@ Definition poll_sup (c : cluster) (name : str) : cluster :=
       flush_outboxes c2 name
   end.
 
-Definition poll_repl_c (c : cluster) (name : str) : cluster :=
+Definition poll_sup (c : cluster) (name : str) : cluster := poll_sup_raw (sync_clocks c) name.
+
+Definition poll_repl_c_raw (c : cluster) (name : str) : cluster :=
   match get_cn c name with
   | None => c
   | Some x => flush_outboxes (put_cn c name (poll_repl x)) name
   end.
+
+Definition poll_repl_c (c : cluster) (name : str) : cluster := poll_repl_c_raw (sync_clocks c) name.
 
 Fixpoint split_lines (msgs : list str) : list str :=
   match msgs with
@@ -348,7 +358,7 @@ Definition set_link (c : cluster) (i : nat) (l : link) : cluster :=
   mkCl (c_nodes c) (list_update (c_links c) i l) (c_cross c).
 
 (* one line from -> to *)
-Definition deliver (c : cluster) (i : nat) : option cluster :=
+Definition deliver_raw (c : cluster) (i : nat) : option cluster :=
   match nth_error (c_links c) i with
   | None => None
   | Some l =>
@@ -377,8 +387,10 @@ Definition deliver (c : cluster) (i : nat) : option cluster :=
       end
   end.
 
+Definition deliver (c : cluster) (i : nat) : option cluster := deliver_raw (sync_clocks c) i.
+
 (* one reply line to -> from *)
-Definition reply (c : cluster) (i : nat) : option cluster :=
+Definition reply_raw (c : cluster) (i : nat) : option cluster :=
   match nth_error (c_links c) i with
   | None => None
   | Some l =>
@@ -397,8 +409,10 @@ Definition reply (c : cluster) (i : nat) : option cluster :=
       end
   end.
 
+Definition reply (c : cluster) (i : nat) : option cluster := reply_raw (sync_clocks c) i.
+
 (* a client command *)
-Definition client_cmd (c : cluster) (name : str) (cidx : nat) (line : str) : cluster * resp :=
+Definition client_cmd_raw (c : cluster) (name : str) (cidx : nat) (line : str) : cluster * resp :=
   match get_cn c name with
   | None => (c, RError "no such node")
   | Some x =>
@@ -407,6 +421,8 @@ Definition client_cmd (c : cluster) (name : str) (cidx : nat) (line : str) : clu
       (flush_outboxes (put_cn c name (cn_set_node x n1)) name, r)
   end.
 
+Definition client_cmd (c : cluster) (name : str) (cidx : nat) (line : str) : cluster * resp := client_cmd_raw (sync_clocks c) name cidx line.
+
 Definition client_conn (c : cluster) (name : str) : cluster * nat :=
   match get_cn c name with
   | None => (c, 0%nat)
@@ -414,6 +430,39 @@ Definition client_conn (c : cluster) (name : str) : cluster * nat :=
       let '(x1, sid) := new_session x empty_sess in
       (put_cn c name (mkCN (cn_node x1) (cn_log x1) (cn_keymap x1) (cn_clients x1 ++ [sid]) (cn_dead x1)),
        List.length (cn_clients x))
+  end.
+
+(* the peer is away: the lines queued from -> to are lost *)
+Definition find_link_idx (c : cluster) (from to : str) : option nat :=
+  (fix go (i : nat) (ls : list link) : option nat :=
+     match ls with
+     | [] => None
+     | l :: r => if l_open l && String.eqb (l_from l) from && String.eqb (l_to l) to then Some i else go (S i) r
+     end) O (c_links c).
+
+Definition drop_link (c : cluster) (from to : str) : cluster * option nat :=
+  match find_link_idx c from to with
+  | None => (c, None)
+  | Some i =>
+      match nth_error (c_links c) i with
+      | None => (c, None)
+      | Some l =>
+          (set_link c i (mkLink (l_from l) (l_to l) (l_hs l) [] (l_server l) (l_reader l) (l_replies l) (l_open l) (l_sent l) (l_back l)),
+           Some (List.length (l_q l)))
+      end
+  end.
+
+(* the node comes back: its link thread runs start_sync_process again *)
+Definition resync (c : cluster) (from to : str) : option cluster :=
+  match find_link_idx c from to, get_cn c from with
+  | Some i, Some xf =>
+      match nth_error (c_links c) i with
+      | None => None
+      | Some l =>
+          let line := "replicate-since " +++ from +++ " " +++ N_to_str (last_op_time_of xf) in
+          Some (set_link c i (mkLink (l_from l) (l_to l) (l_hs l ++ [line]) (l_q l) (l_server l) (l_reader l) (l_replies l) (l_open l) (l_sent l) (l_back l)))
+      end
+  | _, _ => None
   end.
 
 (* add_as_secoundary *)
